@@ -86,20 +86,21 @@ type Case struct {
 }
 
 type Env struct {
-	Prop    *Prop
-	Tier    string
-	Seed    int64
-	Jqawk   string // path to the product binary built from the tree under test
-	Repo    string
-	Scratch string // per-worker scratch directory (under /verif/build)
-	Known   []Finding
-	Verbose bool
+	Prop      *Prop
+	Tier      string
+	Seed      int64
+	Jqawk     string // path to the product binary built from the tree under test
+	JqawkRace string // optional: the same built with -race (checkptr); thorough C01 only
+	Repo      string
+	Scratch   string // per-worker scratch directory (under /verif/build)
+	Known     []Finding
+	Verbose   bool
 }
 
 func (c *Case) Env() *Env { return c.env }
 
-func (c *Case) Count(key string)           { c.sum.Counters[key]++ }
-func (c *Case) CountN(key string, n int)   { c.sum.Counters[key] += n }
+func (c *Case) Count(key string)         { c.sum.Counters[key]++ }
+func (c *Case) CountN(key string, n int) { c.sum.Counters[key] += n }
 func (c *Case) Max(key string, v int) {
 	if v > c.sum.Maxes[key] {
 		c.sum.Maxes[key] = v
@@ -354,7 +355,7 @@ func orchestrate(env *Env, self string, only int) int {
 		ef, _ := os.Create(errf)
 		cmd := exec.Command(self, "worker", p.ID, "--tier", env.Tier, "--seed", strconv.FormatInt(env.Seed, 10),
 			"--from", strconv.Itoa(ch.from), "--to", strconv.Itoa(ch.to), "--journal", journal, "--out", out,
-			"--jqawk", env.Jqawk, "--repo", env.Repo, "--scratch", wscratch)
+			"--jqawk", env.Jqawk, "--jqawk-race", env.JqawkRace, "--repo", env.Repo, "--scratch", wscratch)
 		cmd.Stdout = ef
 		cmd.Stderr = ef
 		cmd.Env = append(os.Environ(), "GOTRACEBACK=single")
